@@ -31,6 +31,11 @@ Theorem printer_positions_exact :
   (forall b, tlen (pr_block b) = len_block b).
 Proof. exact Proofs.printer_positions_exact. Qed.
 
+(** The model compares names as numbers, the analyzer compares identifiers as texts: the printed names of different
+    numbers are different identifiers. *)
+Theorem name_text_injective : forall x y : name, name_text x = name_text y -> x = y.
+Proof. exact Proofs.name_text_injective. Qed.
+
 (** non-vacuity: one program with a duplicate name in one [local], [local a = a], a numeric for whose header (and a
     closure in it) names the loop variable, repeat-until with an empty body and a closure in the condition, an
     until that sees the body's local, a method with its implicit self, and a global assignment *)
